@@ -389,7 +389,6 @@ def _np_array(ex, args, kwargs, node):
   ex.unsupported(node, 'numpy.array of %s' % v.kind)
 
 
-from mmverif.engine.lib import L as _L
-_L['numpy.array'] = _np_array
+# numpy.array is registered by numeric_ledger (handles Series and arrays)
 ASSUMPTIONS.append('numpy.array(series[labels]) keeps the values in label '
                    'order')
